@@ -321,24 +321,35 @@ def game_instance(A, B, X, Y):
     return p, V
 
 
+def game_after(p, V, history=()):
+    """a game object on which the listed value methods have already been called (the captured program must still be the one of
+    the game the object was constructed with: the methods may not alter the object's state)"""
+    g = NonlocalGame(np.array(p, dtype=float), np.array(V, dtype=float))
+    for m in history:
+        getattr(g, m)()
+    return g
+
+
 class NpaTask(Task):
     engine = "E2-sdpcap (T3 certificates in z3)"
     weight = 20
 
-    def __init__(self, shape, k, kind, k_hi=None):
+    def __init__(self, shape, k, kind, k_hi=None, history=()):
         name = {"classical_le_npa": "npa.every_deterministic_strategy_is_feasible_with_its_own_value",
                 "npa_implies_ns": "npa.constraints_imply_nonsignalling_box",
                 "level_monotone": "npa.higher_level_equalities_imply_lower_level_ones"}[kind]
         cfg = {"shape_A_B_X_Y": list(shape), "k": k}
         if k_hi is not None:
             cfg["k_higher"] = k_hi
+        if history:
+            cfg["earlier_calls_on_the_same_object"] = list(history)
         super().__init__(name, cfg)
-        self.shape, self.k, self.kind, self.k_hi = shape, k, kind, k_hi
+        self.shape, self.k, self.kind, self.k_hi, self.history = shape, k, kind, k_hi, tuple(history)
 
     def _capture(self, k):
         A, B, X, Y = self.shape
         p, V = game_instance(A, B, X, Y)
-        cap = capture_call(lambda: NonlocalGame(p, V).commuting_measurement_value_upper_bound(k))
+        cap = capture_call(lambda: game_after(p, V, self.history).commuting_measurement_value_upper_bound(k))
         prog = extract(cap)
         return prog, p, V
 
@@ -484,7 +495,7 @@ class NpaTask(Task):
         """numeric replay: is the deterministic strategy infeasible for the REAL constraint list / does the objective differ?"""
         import cvxpy
         A, B, X, Y = self.shape
-        g = NonlocalGame(p, V)
+        g = game_after(p, V, self.history)
         cap = capture_call(lambda: g.commuting_measurement_value_upper_bound(self.k))
         problem = cap.problem
         for v in problem.variables():
@@ -514,14 +525,17 @@ class NsProgramTask(Task):
     engine = "E2-sdpcap (T3 certificates in z3)"
     weight = 10
 
-    def __init__(self, shape):
-        super().__init__("nonsignaling_value.program_is_lp_over_nonsignalling_boxes", {"shape_A_B_X_Y": list(shape)})
-        self.shape = shape
+    def __init__(self, shape, history=()):
+        cfg = {"shape_A_B_X_Y": list(shape)}
+        if history:
+            cfg["earlier_calls_on_the_same_object"] = list(history)
+        super().__init__("nonsignaling_value.program_is_lp_over_nonsignalling_boxes", cfg)
+        self.shape, self.history = shape, tuple(history)
 
     def _run(self, rec, seed):
         A, B, X, Y = self.shape
         p, V = game_instance(A, B, X, Y)
-        cap = capture_call(lambda: NonlocalGame(p, V).nonsignaling_value())
+        cap = capture_call(lambda: game_after(p, V, self.history).nonsignaling_value())
         prog = extract(cap)
         rec["programs"] = 1
         # variable order: K[a,b,x,y] (creation order a,b,x,y), sigma[a,x], rho[b,y], tau
@@ -603,7 +617,7 @@ class NsProgramTask(Task):
             if "sat" in (r1, r2):
                 # replay: solve the real program and the LP and compare
                 import cvxpy
-                got = float(NonlocalGame(p, V).nonsignaling_value())
+                got = float(game_after(p, V, self.history).nonsignaling_value())
                 qv = cvxpy.Variable(len(kidx), nonneg=True)
                 keys = list(kidx)
                 pos = {k: i for i, k in enumerate(keys)}
@@ -810,7 +824,7 @@ def obligations(tier):
     if T:
         obs.append(BcsEnumeration(3, 2))
         obs.append(BcsEnumeration(1, 3))
-    shapes = [(2, 2, 2, 2), (2, 3, 2, 2), (3, 2, 1, 2), (2, 2, 3, 2)]
+    shapes = [(2, 2, 2, 2), (2, 3, 2, 2), (3, 2, 1, 2), (2, 2, 3, 2), (2, 2, 2, 3), (2, 2, 2, 1)] + ([(2, 2, 3, 3), (2, 3, 1, 4)] if T else [])
     for sh in shapes:
         ks = [1, "1+ab"] + ([2] if (T or sh in [(2, 2, 2, 2), (3, 2, 1, 2)]) else [])
         for k in ks:
@@ -821,6 +835,10 @@ def obligations(tier):
             obs.append(NpaTask(sh, "1+ab", "level_monotone", 2))
             obs.append(NpaTask(sh, 1, "level_monotone", 2))
         obs.append(NsProgramTask(sh))
+    for sh in [(2, 2, 2, 2), (2, 3, 2, 2)] + ([(3, 2, 1, 2), (2, 2, 3, 2)] if T else []):
+        obs.append(NsProgramTask(sh, history=("classical_value",)))
+        obs.append(NpaTask(sh, 1, "classical_le_npa", history=("classical_value",)))
+        obs.append(NpaTask(sh, 1, "npa_implies_ns", history=("classical_value", "classical_value")))
     for sh in [(2, 2, 2, 2), (3, 2, 2, 2)]:
         obs.append(see_saw_task(sh, "alice"))
         obs.append(see_saw_task(sh, "bob"))
